@@ -4,6 +4,7 @@ use vcore::{Ctx, J};
 
 mod c03;
 mod c06;
+mod c11;
 
 type ReplayFn = fn(&Ctx, &J) -> Result<(), String>;
 type RunFn = fn(&Ctx);
@@ -12,6 +13,7 @@ fn table(prop: &str) -> Option<(RunFn, ReplayFn)> {
   Some(match prop {
     "C03" => (c03::run, c03::replay),
     "C06" => (c06::run, c06::replay),
+    "C11" => (c11::run, c11::replay),
     _ => return None,
   })
 }
